@@ -197,3 +197,167 @@ Proof.
     + intros w r H. destruct w; discriminate.
     + intros x [].
 Qed.
+
+(* ---- tactics ---------------------------------------------------------------------------------------- *)
+
+Ltac split_and :=
+  repeat match goal with
+         | H : _ && _ = true |- _ => apply andb_true_iff in H; destruct H
+         | H : negb _ = true |- _ => apply negb_true_iff in H
+         | H : negb _ = false |- _ => apply negb_false_iff in H
+         | H : Nat.eqb _ _ = true |- _ => apply Nat.eqb_eq in H
+         | H : Bool.eqb _ _ = true |- _ => apply eqb_prop in H
+         end.
+
+Ltac case_hyp H :=
+  repeat match type of H with
+         | context [match ?x with _ => _ end] => destruct x eqn:?; simpl in H; try discriminate H
+         | context [if ?x then _ else _] => destruct x eqn:?; simpl in H; try discriminate H
+         end.
+
+Ltac inv_some H := inversion H; subst; clear H.
+
+Lemma occ_bound n l : Forall (fun x => x < n) l -> occ n l = 0.
+Proof.
+  induction 1; simpl; auto. rewrite IHForall.
+  destruct (Nat.eqb x n) eqn:E; simpl; auto. apply Nat.eqb_eq in E. lia.
+Qed.
+
+Lemma relcount_bound n l : (forall x, In x l -> fst (fst x) < n) -> relcount n l = 0.
+Proof.
+  unfold relcount. induction l; simpl; intros H; auto.
+  destruct (Nat.eqb (fst (fst a)) n) eqn:E.
+  - apply Nat.eqb_eq in E. specialize (H a (or_introl eq_refl)). lia.
+  - apply IHl. intros x Hx. apply H. right; auto.
+Qed.
+
+Lemma relcount_app w l x : relcount w (l ++ [x]) = relcount w l + b2n (Nat.eqb (fst (fst x)) w).
+Proof.
+  unfold relcount. rewrite filter_app, app_length. simpl.
+  destruct (Nat.eqb (fst (fst x)) w); simpl; lia.
+Qed.
+
+Lemma icb_bound ic n : (forall x, ic = Some x -> x < n) -> icb ic n = false.
+Proof.
+  destruct ic as [x|]; simpl; auto. intros H. specialize (H x eq_refl).
+  apply Nat.eqb_neq. lia.
+Qed.
+
+(* wloc is monotone in "the head is all-done" *)
+Lemma wloc_mono o ic r : wloc false o ic r = true -> wloc true o ic r = true.
+Proof.
+  unfold wloc. intros H. apply andb_true_iff in H. destruct H as [H _]. rewrite H.
+  destruct (needs_all r); reflexivity.
+Qed.
+
+(* ---- events that create things or move the counter ----------------------------------------------- *)
+
+Lemma got_ok_app fl x g : got_ok fl g -> got_ok (fl ++ [x]) g.
+Proof.
+  intros [H|[r [H1 H2]]]; [left; auto|right]. exists r. split; auto.
+  rewrite nth_error_app1; auto. eapply nth_some_lt; eauto.
+Qed.
+
+Lemma inv_new_w s k s' : Inv s -> step s (ENewW k) = Some s' -> Inv s'.
+Proof.
+  intros (G & C & F & (W1 & W2 & W3) & (R1 & R2 & R3 & R4 & R5)) H. simpl in H. inv_some H.
+  split; [exact G|]. split; [exact C|]. split; [exact F|]. split.
+  - unfold Wpart; simpl. split; [|split].
+    + intros w r Hn. apply nth_app_new in Hn. destruct Hn as [Hn|[-> ->]]; [apply W1; auto|].
+      rewrite occ_bound; auto. rewrite icb_bound; auto.
+      unfold wloc, wcore, needs_all; destruct k; reflexivity.
+    + eapply Forall_impl; [|exact W2]. intros a Ha. simpl in Ha. rewrite app_length. simpl. lia.
+    + intros x Hx. specialize (W3 x Hx). rewrite app_length. simpl. lia.
+  - unfold Rpart; simpl. split; [exact R1|]. split; [exact R2|]. split; [exact R3|]. split.
+    + intros w r Hn. apply nth_app_new in Hn. destruct Hn as [Hn|[-> ->]]; [apply R4; auto|].
+      rewrite relcount_bound by auto. destruct k; reflexivity.
+    + intros x Hx. specialize (R5 x Hx). rewrite app_length. simpl. lia.
+Qed.
+
+Lemma inv_new_f s k s' : Inv s -> step s (ENewF k) = Some s' -> Inv s'.
+Proof.
+  intros (G & C & F & W & (R1 & R2 & R3 & R4 & R5)) H. simpl in H. inv_some H.
+  split; [exact G|]. split.
+  - unfold Cpart in *; simpl. intros Hb. rewrite sumh_app. specialize (C Hb). destruct k; simpl; lia.
+  - split; [apply Forall_app_one; auto; destruct k; reflexivity|]. split; [exact W|].
+    unfold Rpart; simpl. split; [exact R1|]. split; [exact R2|]. split; [|split; [exact R4|exact R5]].
+    eapply Forall_impl; [|exact R3]. intros g Hg. apply got_ok_app; auto.
+Qed.
+
+(* ---- the counter ------------------------------------------------------------------------------------- *)
+
+Ltac gb_destruct s :=
+  destruct (broken s), (fired s), (is_all (head s)), (crash s), (uaf s); simpl in *; try discriminate; try reflexivity.
+
+Lemma gb_do_add n du s : Gb s = true -> Gb (do_add n du s) = true.
+Proof.
+  unfold Gb, do_add; simpl. intros H. gb_destruct s; auto.
+Qed.
+
+Lemma gb_do_sub n du bad s : Gb s = true -> Gb (do_sub n du bad s) = true.
+Proof.
+  unfold Gb, do_sub; simpl. intros H.
+  destruct (Nat.eqb (cnt s) n) eqn:Eh; [apply Nat.eqb_eq in Eh|].
+  - destruct (Nat.ltb (cnt s) n) eqn:El; [apply Nat.ltb_lt in El; lia|].
+    subst n. rewrite Nat.sub_diag.
+    destruct bad; gb_destruct s; split_and; try lia;
+      repeat (apply andb_true_iff; split); auto; try (apply Nat.eqb_eq; simpl in *; lia).
+  - destruct (Nat.ltb (cnt s) n) eqn:El;
+    destruct bad; gb_destruct s; split_and; try lia;
+      repeat (apply andb_true_iff; split); auto; try (apply Nat.eqb_eq; simpl in *; lia).
+Qed.
+
+Lemma gb_user_set s : Gb s = true -> Gb (user_set s) = true.
+Proof.
+  unfold Gb, user_set; simpl. intros H.
+  destruct (Nat.eqb (cnt s) 0) eqn:E; gb_destruct s; split_and; try lia;
+    repeat (apply andb_true_iff; split); auto; try (apply Nat.eqb_eq; simpl in *; lia).
+Qed.
+
+Lemma broken_do_sub n du bad s : broken (do_sub n du bad s) = false ->
+  broken s = false /\ bad = false /\ n <= cnt s.
+Proof.
+  unfold do_sub; simpl. intros H. repeat (apply orb_false_iff in H; destruct H as [H ?]).
+  repeat split; auto. apply Nat.ltb_ge; auto.
+Qed.
+
+Lemma broken_do_add n du s : broken (do_add n du s) = false -> broken s = false.
+Proof. unfold do_add; simpl. intros H. apply orb_false_iff in H. tauto. Qed.
+
+Lemma rpart_same_obs s s' :
+  Rpart s -> (broken s' = false -> broken s = false) ->
+  rels s' = rels s -> readys s' = readys s -> gots s' = gots s -> ws s' = ws s -> fs s' = fs s -> Rpart s'.
+Proof.
+  intros (R1 & R2 & R3 & R4 & R5) Hb E1 E2 E3 E4 E5. unfold Rpart. rewrite E1, E2, E3, E4, E5.
+  repeat split; auto.
+Qed.
+
+Lemma inv_add s n v s' : Inv s -> step s (EAdd n v) = Some s' -> Inv s'.
+Proof.
+  intros (G & C & F & W & R) H. simpl in H. case_hyp H. inv_some H.
+  split; [apply gb_do_add; auto|]. split.
+  - intros Hb. apply broken_do_add in Hb. specialize (C Hb). simpl. lia.
+  - split; [exact F|]. split; [exact W|].
+    eapply rpart_same_obs; eauto. apply broken_do_add.
+Qed.
+
+Lemma inv_sub s n v s' : Inv s -> step s (ESub n v) = Some s' -> Inv s'.
+Proof.
+  intros (G & C & F & W & R) H. simpl in H. case_hyp H. inv_some H.
+  split; [apply gb_do_sub; auto|]. split.
+  - intros Hb. apply broken_do_sub in Hb. destruct Hb as (Hb & Hbad & Hle). specialize (C Hb). simpl.
+    apply orb_false_iff in Hbad. destruct Hbad as [_ Hu]. apply Nat.ltb_ge in Hu. lia.
+  - split; [exact F|]. split; [exact W|].
+    eapply rpart_same_obs; eauto. intros Hb. apply broken_do_sub in Hb. tauto.
+Qed.
+
+Lemma inv_user_set s s' : Inv s -> step s EUserSet = Some s' -> Inv s'.
+Proof.
+  intros (G & C & F & W & R) H. simpl in H. inv_some H.
+  split; [apply gb_user_set; auto|]. split.
+  - intros Hb. simpl in Hb. apply orb_false_iff in Hb. destruct Hb as [Hb _].
+    apply orb_false_iff in Hb. destruct Hb as [Hb _]. specialize (C Hb). simpl. exact C.
+  - split; [exact F|]. split; [exact W|].
+    eapply rpart_same_obs; eauto. simpl. intros Hb. apply orb_false_iff in Hb. destruct Hb as [Hb _].
+    apply orb_false_iff in Hb. tauto.
+Qed.
